@@ -118,6 +118,9 @@ type Interp struct {
 	// recorded as an effect and its results are uninterpreted (used to compare a
 	// unit with its reference model without inlining its neighbours)
 	opaqueMethods map[string]bool
+	// opaque methods known to be pure (no write, no effect): consulting them is not an effect, so the ORDER in
+	// which a decision procedure consults them does not matter
+	pureOpaque map[string]bool
 	// extra packages (reference code) that may be inlined
 	extraDecls map[types.Object]*ast.FuncDecl
 	extraPkg   map[types.Object]*packages.Package
@@ -1473,7 +1476,9 @@ func (in *Interp) callTree(fr *frame, call *ast.CallExpr, st *State) *Tree {
 			if in.opaqueMethods[short] {
 				all := append([]*Term{recv}, args...)
 				ns := st.clone()
-				ns.effects = append(ns.effects, &Term{Op: "callfx", S: short, Args: all})
+				if !in.pureOpaque[short] {
+					ns.effects = append(ns.effects, &Term{Op: "callfx", S: short, Args: all})
+				}
 				v := &Term{Op: "opaque", S: short, Args: all}
 				return leafTree(ns, flowFall, in.splitResults(v, sig)...)
 			}
